@@ -121,6 +121,20 @@ int main() {
                     W.w.ev("done " + op + " " + ecname(ec) + " rc=" + std::to_string(rc.value()) + " props=" + pu::dump(pp) + W.ins()); }));
             W.in_api = false;
         }
+        else if (cmd == "pubn") {   // pubn <prefix> <n> <qos 1|2>: n publishes in a row (no executor step in between), names <prefix><i>, topic "t", payload = name
+            std::string pre; unsigned n, q; is >> pre >> n >> q;
+            W.in_api = true;
+            for (unsigned i = 1; i <= n; i++) {
+                std::string op = pre + std::to_string(i);
+                if (q == 1) W.c->async_publish<qos_e::at_least_once>("t", op, retain_e::no, publish_props{},
+                    asio::bind_cancellation_slot(W.slot(op), [&W, op](error_code ec, reason_code rc, puback_props pp) {
+                        W.w.ev("done " + op + " " + ecname(ec) + " rc=" + std::to_string(rc.value()) + " props=" + pu::dump(pp) + W.ins()); }));
+                else W.c->async_publish<qos_e::exactly_once>("t", op, retain_e::no, publish_props{},
+                    asio::bind_cancellation_slot(W.slot(op), [&W, op](error_code ec, reason_code rc, pubcomp_props pp) {
+                        W.w.ev("done " + op + " " + ecname(ec) + " rc=" + std::to_string(rc.value()) + " props=" + pu::dump(pp) + W.ins()); }));
+            }
+            W.in_api = false;
+        }
         else if (cmd == "sub") {
             std::string op, pl; unsigned n; is >> op >> pl >> n;
             subscribe_props props; pu::fill(props, pl);
